@@ -233,7 +233,7 @@ def run(tier, rep):
         for c in combos:
             add('pow3', (a, e, m), c, 'pow3')
     # random operands 1..192 bits
-    nrand = 3000 if tier == 'quick' else 100000
+    nrand = 3000 if tier == 'quick' else 500000
     allops = BINOPS + ['lshift', 'rshift']
     for i in range(nrand):
         op = r.choice(allops)
